@@ -274,7 +274,10 @@ def check_C02(tier):
     return run_hist_prop('C02', tier, 2, 700, 40000, p_fail=0.5, families=gen.SCENARIOS + [gen.scen_cache_subdir])
 def check_C03(tier):
     return run_hist_prop('C03', tier, 3, 700, 40000, p_fail=0.3, p_clean=0.2, families=gen.SCENARIOS + [gen.scen_cache_subdir])
-def check_C04(tier): return run_hist_prop('C04', tier, 4, 500, 20000, prof=QUERY_DENSE)
+def check_C04(tier):
+    # query-dense programs, plus call-dense ones (what a later build sees depends on what earlier ones recorded)
+    return run_hist_prop('C04', tier, 4, 500, 20000, prof=QUERY_DENSE,
+                         extra_cases=lambda t, ds: random_cases(t, 400, 15000, 104, dirsize=ds))
 def check_C05(tier): return run_hist_prop('C05', tier, 5, 700, 40000, p_fail=0.05, p_clean=0.03, min_builds=3, max_builds=6)
 
 
